@@ -29,13 +29,25 @@ BAND_PATH = [[[0.05, 0.0, 0.0], [0.275, 0.0, 0.0], [0.5, 0.0, 0.0]], [[0.5, 0.0,
 DERIVED = ("mesh", "band", "tp", "dos")
 
 
+MISSING = object()   # sentinel: a private attribute of /repo the harness would like to look at does not exist (renamed)
+
+
+def priv(obj, name):
+    """guarded read of a private attribute: optional refinements only (every tie also goes through public results)"""
+    return getattr(obj, name, MISSING)
+
+
 def gv_config(ph):
-    """the hidden configuration that determines group velocities"""
+    """the hidden configuration that determines group velocities (observation only; "?" = hook unavailable)"""
     g = ph.group_velocity
     if g is None:
         return None
-    return dict(delta_q=ph._gv_delta_q, q_length=g._q_length, analytic=g._ddm is not None,
-                symmetry=g._symmetry is not None, perturbation=None if g._perturbation is None else tuple(np.ravel(g._perturbation)))
+
+    def show(v, f=lambda x: x):
+        return "?" if v is MISSING else f(v)
+    return dict(delta_q=show(priv(ph, "_gv_delta_q")), q_length=show(priv(g, "_q_length")), analytic=show(priv(g, "_ddm"), lambda x: x is not None),
+                symmetry=show(priv(g, "_symmetry"), lambda x: x is not None),
+                perturbation=show(priv(g, "_perturbation"), lambda x: None if x is None else tuple(np.ravel(x))))
 
 
 def read_derived(ph, kind):
@@ -428,6 +440,7 @@ def run_impl(w, ops, viol, fsf=False):
     built = {}         # id(dm) -> (dm, gonze array, fc values at build time)
     tainted = False    # a caller mutation reached the object's state earlier in this history
     last_opt = {}      # options of the last successful run_thermal_properties / run_total_dos
+    hooks_missing = set()
     steps = []
 
     def reachable(o):
@@ -750,15 +763,22 @@ def run_impl(w, ops, viol, fsf=False):
                            method="wang" if cls == "wang" else "gonze")
             dg["dm"] = dict(cls=cls, fc=dm.force_constants, nac=dmn, gonze=gz, same=dm.force_constants is ph.force_constants)
         gvo = ph.group_velocity
-        dg["gv"] = "-" if gvo is None else ("cur" if gvo._dynmat is dm else "stale")
+        gdm = MISSING if gvo is None else priv(gvo, "_dynmat")
+        dg["gv"] = "-" if gvo is None else ("?" if gdm is MISSING else ("cur" if gdm is dm else "stale"))
         dg["derived"] = {dk: read_derived(ph, dk) for dk in DERIVED}
         dg["derived_opt"] = dict(last_opt)
         from phonopy.phonon.group_velocity import GroupVelocity
 
         def qtok(x):
-            return "-" if x is None else ("1" if abs(x - World.GVQ) < 1e-12 else ("default" if abs(x - GroupVelocity.Default_q_length) < 1e-15 else repr(x)))
-        dg["dq"] = qtok(ph._gv_delta_q)
-        dg["gvq"] = "-" if gvo is None else ("analytic" if gvo._q_length is None else qtok(gvo._q_length))
+            return "-" if x is None else ("1" if abs(x - World.GVQ) < 1e-12 else ("default" if abs(x - getattr(GroupVelocity, "Default_q_length", 1e-5)) < 1e-15 else repr(x)))
+        dqv = priv(ph, "_gv_delta_q")
+        dg["dq"] = "?" if dqv is MISSING else qtok(dqv)
+        qlv = MISSING if gvo is None else priv(gvo, "_q_length")
+        dg["gvq"] = "-" if gvo is None else ("?" if qlv is MISSING else ("analytic" if qlv is None else qtok(qlv)))
+        for name_, val_ in (("GroupVelocity._dynmat", dg["gv"]), ("Phonopy._gv_delta_q", dg["dq"]), ("GroupVelocity._q_length", dg["gvq"])):
+            if val_ == "?" and name_ not in hooks_missing:
+                hooks_missing.add(name_)
+                viol("intermediate hook unavailable: %s" % name_, "hook-unavailable", "private attribute not found; the tie goes through public results only", si)
         fco = ph.force_constants
         dg["fcref"] = sorted(j for j, o in enumerate(objs) if o is not None and o is fco)
         steps.append(dict(out=out, flag=flag, dg=snapshot(dg)))
@@ -1237,11 +1257,11 @@ def compare(w, m0, ops, impl, model, mism):
                 mism("Gonze-Lee short-range constants were built from other values than model term %s" % gz, si)
             if (same == "same") != bool(d["same"]):
                 mism("dm.force_constants is ph.force_constants: model %s" % same, si)
-        if mdg["gv"] != dg["gv"]:
+        if dg["gv"] != "?" and mdg["gv"] != dg["gv"]:
             mism("group-velocity object: model %s, implementation %s" % (mdg["gv"], dg["gv"]), si)
-        if mdg.get("dq", "-") != dg["dq"]:
+        if dg["dq"] != "?" and mdg.get("dq", "-") != dg["dq"]:
             mism("Phonopy._gv_delta_q is %s, model gvDeltaQ %s" % (dg["dq"], mdg.get("dq")), si)
-        if mdg.get("gvq", "-") != dg["gvq"]:
+        if dg["gvq"] != "?" and mdg.get("gvq", "-") != dg["gvq"]:
             mism("the GroupVelocity object differentiates with q_length=%s, model %s" % (dg["gvq"], mdg.get("gvq")), si)
         for dk, tok in zip(DERIVED, mdg.get("derived", "-,-,-,-").split(",")):
             got = dg["derived"][dk]
@@ -1653,7 +1673,7 @@ def main(run):
 
     # conditions on hidden state / representation are counted, not judged (the correspondence with the model and the
     # end-effect oracles decide): private GroupVelocity configuration, nested containers shared with a caller's dict
-    OBSERVATIONS = {"gv-configuration-differs", "caller-container-shared"}
+    OBSERVATIONS = {"gv-configuration-differs", "caller-container-shared", "hook-unavailable"}
     found = {}  # (site, class) -> first (world, ops, what, step)
     nsteps = nbad = 0
     for (w, ops, tag, word, fsf), (idx, hits, mis), line, ml in zip(cases, results, lines, outl):
